@@ -14,11 +14,11 @@ Open Scope list_scope.
 
 (* (T) what the source says today *)
 Theorem C03_source_facts :
-  dispatch_reraises = false /\ dispatch_failed_status = v1_failed_status_test /\
+  dispatch_reraises = false /\ dispatch_handler_lazy = true /\ dispatch_failed_status = v1_failed_status_test /\
   dispatch_failed_status = v2_failed_status_test /\ v1_match_requires_success = true /\
   ie_has_hide = true /\ ie_utterances = [v1_internal_error_message] /\
   v1_context_honours_hide = true /\ v2_flag_reset_on_failure = true.
-Proof. exact (conj eq_refl (conj eq_refl (conj eq_refl (conj eq_refl (conj eq_refl (conj eq_refl (conj eq_refl eq_refl))))))). Qed.
+Proof. exact (conj eq_refl (conj eq_refl (conj eq_refl (conj eq_refl (conj eq_refl (conj eq_refl (conj eq_refl (conj eq_refl eq_refl)))))))). Qed.
 Print Assumptions C03_source_facts.
 
 (* generate returns: for ALL fault sets (any script: any subset of call sites and occurrences, in
